@@ -59,6 +59,10 @@ def universe():
                                   "radius.width": 0.0, "radius.npts": 35})
     add("sphere", "sasview", Q1, {"radius": 55.0, "scale": 1.5, "background": 0.02, "sld": 2.0, "sld_solvent": 6.0,
                                   "radius.width": 0.2, "radius.npts": 10})
+    add("sphere", "sasview", Q1, {"radius": 55.0, "scale": 1.0, "background": 0.0, "sld": 1.0, "sld_solvent": 6.0},
+        array={"par": "radius", "values": [35.0, 45.0, 50.0, 60.0, 75.0], "weights": [3.0, 11.0, 27.0, 14.0, 2.0]})
+    add("sphere", "sasview", Q2, {"radius": 55.0, "scale": 2.0, "background": 0.1, "sld": 1.0, "sld_solvent": 6.0},
+        array={"par": "radius", "values": [40.0, 50.0, 52.0], "weights": [0.5, 0.25, 0.25]})
     add("sphere", "call_kernel", Q1, {"radius": -5.0, "radius_pd": 0.1, "radius_pd_n": 5, "background": 0.25},
         empty_mesh=True)
     # --- cylinder (oriented, many effective-radius modes)
@@ -160,7 +164,7 @@ def histories(draw):
     for _ in range(n):
         m = draw(st.sampled_from(chosen))
         kind = draw(st.sampled_from(["eval"] * 8 + ["make_kernel", "release_kernel", "release_model", "reload",
-                                                   "repeat", "clone"]))
+                                                   "repeat", "clone", "clone"]))
         if kind == "eval":
             step = dict(draw(st.sampled_from(U[m])))
             if (step["op"] in ("call_kernel", "call_Fq", "direct") and m in DISPERSIBLE and not step.get("empty_mesh")
@@ -184,7 +188,9 @@ def histories(draw):
             qs = draw(st.sampled_from([Q1, Q2, QXY]))
             steps.append(dict(op=kind, model=m, **qs))
         elif kind == "clone":
-            sv = [s for s in U[m] if s["op"] == "sasview"]
+            with_sv = [x for x in chosen if any(s_["op"] == "sasview" for s_ in U[x])] or ["sphere"]
+            m = draw(st.sampled_from(with_sv))
+            sv = [s for s in U[m] if s["op"] == "sasview" and not s.get("array")]
             if sv:
                 # clone, then work on one object and re-evaluate the other WITHOUT setting anything on it
                 steps.append(dict(draw(st.sampled_from(sv)), target="a"))
@@ -325,5 +331,5 @@ def plan(tier):
 
 
 def run_shard(ctx, spec):
-    n = 10 if ctx.tier == "quick" else 250
+    n = 14 if ctx.tier == "quick" else 250
     ctx.explore("history", histories(), n, shrink=True, shrink_examples=30)
